@@ -156,10 +156,14 @@ def _split_instruction_into_tokens(line: str) -> List[str]:
     line = line.strip()
     i = 0
     start = i
+    # "//" is part of the base64 alphabet: it does not start a comment inside base64 data
+    in_base64 = False
     while i < len(line):
         if line[i].isspace():
             if start != i:
                 fields.append(line[start:i].strip())
+                # the token after "base64" / "b64" is the encoded data
+                in_base64 = fields[-1] in ("base64", "b64")
             i += 1
             start = i
         elif line[i] == '"':
@@ -176,13 +180,17 @@ def _split_instruction_into_tokens(line: str) -> List[str]:
                 i += 1
             else:
                 raise ParseError(f"missing closing qoute {line}")
-        elif line[i : i + 2] == "//":
+        elif line[i : i + 2] == "//" and not in_base64:
             if start != i:
                 # the comment directly follows a token, without a space in between
                 fields.append(line[start:i])
             fields.append(line[i:])
             return fields
         else:
+            if line[i] == "(" and line[start:i] in ("base64", "b64"):
+                in_base64 = True
+            elif line[i] == ")":
+                in_base64 = False
             i += 1
     if start < len(line):
         fields.append(line[start:].strip())
@@ -504,7 +512,8 @@ def parse_line(line: str) -> Optional[instructions.Instruction]:
     source_code_line = line
     fields = _split_instruction_into_tokens(line)
     comment = ""
-    if fields[-1].startswith("//"):
+    if fields[-1].startswith("//") and not (len(fields) > 1 and fields[-2] in ("base64", "b64")):
+        # (base64 data may start with "//")
         comment = fields[-1]
         fields = fields[:-1]
 
